@@ -3,7 +3,7 @@ from typing import Optional, TypeAlias, cast, TYPE_CHECKING
 from collections.abc import Sequence, Iterable, Mapping
 from amaranth import *
 from amaranth.hdl import ValueCastable
-from amaranth.hdl._ast import ArrayProxy, Slice
+from amaranth.hdl._ast import ArrayProxy, Operator, Slice
 from amaranth.lib import data
 from amaranth_types import ValueLike
 from transactron.utils.amaranth_ext.functions import shape_of
@@ -204,6 +204,9 @@ def assign(
             rhs_fields = assign_arg_fields(rhs)
 
         def has_explicit_shape(val: ValueLike):
+            if isinstance(val, Operator) and val.operator in ("s", "u"):
+                # a signed field of a View is the sign conversion of a slice
+                return has_explicit_shape(val.operands[0])
             return isinstance(val, (Signal, ArrayProxy, Slice, ValueCastable))
 
         if (
